@@ -381,6 +381,20 @@ func (r *Run) markCurrent(c any) {
 	_ = os.WriteFile(p, b, 0o644)
 }
 
+// markBatch is markCurrent for Batch: all cases being executed at the moment.
+func (r *Run) markBatch(cs []any) {
+	p := os.Getenv("VERIF_CURRENT")
+	if p == "" {
+		return
+	}
+	b, err := json.Marshal(map[string]any{"property": r.Prop, "test": r.Test, "batch": cs,
+		"error": "process died while executing these cases"})
+	if err != nil {
+		return
+	}
+	_ = os.WriteFile(p, b, 0o644)
+}
+
 // GoErr runs f in a new goroutine, turning a panic into an error delivered to sink.
 func GoErr(wg *sync.WaitGroup, sink *ErrSink, f func()) {
 	if wg != nil {
@@ -513,16 +527,41 @@ func Batch[C any](r *Run, n, par int, gen func(*rapid.T) C, prop func(C, *Obs) e
 	sem := make(chan struct{}, par)
 	out := make([]res, n)
 	var wg sync.WaitGroup
+	// the cases in flight are written down, so that the driver can find the one that killed the process
+	// (a panic in a goroutine pandora spawned) by running them one by one
+	var flightMu sync.Mutex
+	flight := map[int]any{}
+	mark := func(i int, c any, on bool) {
+		flightMu.Lock()
+		defer flightMu.Unlock()
+		if on {
+			flight[i] = c
+		} else {
+			delete(flight, i)
+		}
+		idx := make([]int, 0, len(flight))
+		for k := range flight {
+			idx = append(idx, k)
+		}
+		sort.Ints(idx)
+		cs := make([]any, 0, len(idx))
+		for _, k := range idx {
+			cs = append(cs, flight[k])
+		}
+		r.markBatch(cs)
+	}
 	for i := 0; i < n; i++ {
 		c := Example(r, gen, i)
 		wg.Add(1)
 		sem <- struct{}{}
+		mark(i, c, true)
 		go func(i int, c C) {
 			defer wg.Done()
 			defer func() { <-sem }()
 			o := &Obs{}
 			err := Guard(func() error { return prop(c, o) })
 			out[i] = res{c, o, err}
+			mark(i, c, false)
 		}(i, c)
 	}
 	wg.Wait()
